@@ -28,7 +28,7 @@ CHECKS.update({
  'C05': ('Exhaustive enumeration of the verdict x latency x signing x digest-state x validator-state grid for both front-ends plus Hypothesis-sampled mixed batches; oracle: harness call log (accepted-before-delivered), verdict mapping, ValidationFailure contents',
          'The combination grid named in the property is small and is enumerated completely in both tiers (exhaustive for that grid); mixed batches on one app instance are sampled.',
          'Trusts the reference decision table in pbt/checks/c05_validation.py; validators that raise are outside the quantifier.', '6/C05'),
- 'C06': ('Exhaustive cut enumeration + Hypothesis cut sets for stream framing through a real asyncio.StreamReader; Hypothesis random bytes and byte/TLV-structural mutations of every packet kind delivered to both front-ends and the UdpFace protocol object with bystander Interests/handlers; oracle: exact packet list, normal return, no unhandled loop error, bystanders still work',
+ 'C06': ('Exhaustive cut enumeration + Hypothesis cut sets for stream framing through a real asyncio.StreamReader; Hypothesis random bytes and byte/TLV-structural mutations of every packet kind delivered to both front-ends and the UdpFace protocol object with bystander Interests/handlers, + (thorough) an atheris/libFuzzer campaign on the receive path with the bystander oracle inside the target; oracle: exact packet list, normal return, no unhandled loop error, bystanders still work',
          'Generated-input fuzzing of the receive path with a behavioural oracle (not only crash detection); every single cut position of the fixed streams is enumerated.',
          'Trusts the strict TLV walker for deciding what a stream face would hand over; declared lengths < 2^17.', '6/C06'),
  'C10': ('Metamorphic Hypothesis histories: each history is run with minimal and with fully wrapped link-layer envelopes (independent encoder) on two fresh apps and the observable logs compared; absolute oracles for Nack reason codes, fragmented envelopes and PIT-token echo',
@@ -36,7 +36,7 @@ CHECKS.update({
          'Header fields are generated in ascending type order (as NFD sends them); token clause on appv2 only.', '6/C10'),
 })
 CHECKS.update({
- 'C07': ('Differential fuzzing of five decoders against an independent strict reader: Hypothesis random / framed-random / grammar-generated / mutated inputs + enumeration of every single-edit mutation of seed packets; oracles: allowed exception classes, accept=>strict-accept, canonical well-formed => accept, field equality, sys.monitoring line budget for linear time',
+ 'C07': ('Differential fuzzing of five decoders against an independent strict reader: Hypothesis random / framed-random / grammar-generated / mutated inputs + enumeration of every single-edit mutation of seed packets + (thorough) an atheris/libFuzzer coverage-guided campaign with the same oracle inside the target; oracles: allowed exception classes, accept=>strict-accept, canonical well-formed => accept, field equality, sys.monitoring line budget for linear time',
          'Differential generated-input search; the strict reader is an independent implementation of the NDN-TLV evolvability rules with per-packet field tables. 10^4 (quick) to >10^6 (thorough) inputs. One known finding is recognised precisely (result equals the strict reading with the clamping defect emulated).',
          'Trusts pbt/pkt.py strict readers; fixed Nonce/HopLimit widths and component type ranges are not demanded (the property does not list them).', '6/C07'),
 })
@@ -116,7 +116,7 @@ def main():
             na.append({'property_id': pid, 'reason': NOT_YET.get(pid, 'check not built yet in this revision of /verif (planned: see DESIGN.md section 6); not a statement that the technique cannot apply')})
     m = {
         'version': 1,
-        'setup_cmd': '/venv/bin/pip install --no-index --find-links /opt/veriftools/wheels hypothesis >/dev/null 2>&1; /venv/bin/python -c "import hypothesis, ndn"',
+        'setup_cmd': '/venv/bin/pip install --no-index --find-links /opt/veriftools/wheels hypothesis >/dev/null 2>&1; /venv/bin/pip install --no-index --find-links /opt/veriftools/wheels --target /verif/.deps atheris >/dev/null 2>&1; /venv/bin/python -c "import hypothesis, ndn"',
         'hooks': {'guard': 'NDN_VERIF', 'enable': 'no source hooks: checks import /repo/src directly (PYTHONPATH) and inject clock/randomness/faults from outside', 
                   'baseline_off_cmd': 'cd /repo && /venv/bin/python -m pytest -ra -q -p no:cacheprovider --timeout=900 --continue-on-collection-errors',
                   'source_commits': [], 'add_only': True},
